@@ -20,6 +20,7 @@ import (
 const verifDir = "/verif"
 
 type propConfig struct {
+	AtomicScan   bool     `json:"atomic_scan"`
 	StableScan   bool     `json:"stable_scan"` // include the stable-field store-scan obligations
 	Property     string   `json:"property"`
 	Title        string   `json:"title"`
@@ -206,6 +207,13 @@ func cmdCheck(args []string) {
 		}
 	}
 	solveAll(obs, pres, timeout, 16, *tier == "thorough", dir)
+	if cfg.AtomicScan {
+		for _, o := range g.atomicScan() {
+			if !notClaimed[baseName(o.Name)] {
+				obs = append(obs, o)
+			}
+		}
+	}
 	if cfg.StableScan {
 		for _, o := range g.stableScan() {
 			if !notClaimed[baseName(o.Name)] {
@@ -508,6 +516,71 @@ func sweepPre(g *Gen, o *Oblig, prop string) bool {
 		}
 	}
 	return false
+}
+
+// atomicScan: a field declared `atomiconly` may only be used as the address argument of a
+// sync/atomic function, anywhere in the package.
+func (g *Gen) atomicScan() []*Oblig {
+	var out []*Oblig
+	for _, ent := range g.cs.AtomicOnly {
+		i := strings.Index(ent, "|")
+		dir, tf := ent[:i], ent[i+1:]
+		sp := g.pkgs[dir]
+		j := strings.LastIndex(tf, ".")
+		if sp == nil || j < 0 {
+			continue
+		}
+		tname, fname := tf[:j], tf[j+1:]
+		obj := sp.Pkg.Scope().Lookup(tname)
+		if obj == nil {
+			continue
+		}
+		var bad []string
+		n := 0
+		for _, fn := range g.funcs {
+			if fn.Pkg != sp {
+				continue
+			}
+			for _, b := range fn.Blocks {
+				for _, in := range b.Instrs {
+					fa, ok := in.(*ssa.FieldAddr)
+					if !ok || !types.Identical(deref(fa.X.Type()), obj.Type()) {
+						continue
+					}
+					s, _ := isStruct(obj.Type())
+					if s.Field(fa.Field).Name() != fname {
+						continue
+					}
+					for _, ref := range *fa.Referrers() {
+						n++
+						okUse := false
+						if c, isCall := ref.(*ssa.Call); isCall {
+							if cal := c.Common().StaticCallee(); cal != nil && strings.HasPrefix(cal.String(), "sync/atomic.") {
+								okUse = true
+							}
+						}
+						if _, isDbg := ref.(*ssa.DebugRef); isDbg {
+							okUse = true
+							n--
+						}
+						if !okUse {
+							pos := g.prog.Fset.Position(ref.Pos())
+							bad = append(bad, fmt.Sprintf("%s (%s:%d)", fn.RelString(sp.Pkg), filepath.Base(pos.Filename), pos.Line))
+						}
+					}
+				}
+			}
+		}
+		sort.Strings(bad)
+		o := &Oblig{Name: fmt.Sprintf("%s.%s#atomiconly[%s]", sp.Pkg.Name(), tname, fname), Func: tname, Kind: "atomiconly", Label: fname}
+		if len(bad) == 0 {
+			o.Res = &SolveResult{Status: "unsat", Solver: "access-scan", Output: fmt.Sprintf("%d uses, all as the address argument of sync/atomic calls", n)}
+		} else {
+			o.Res = &SolveResult{Status: "sat", Solver: "access-scan", Output: "non-atomic access: " + strings.Join(bad, "; ")}
+		}
+		out = append(out, o)
+	}
+	return out
 }
 
 // stableScan: fields declared `stable` may only be stored to through an object allocated in the
